@@ -4,6 +4,8 @@ go 1.23
 
 require (
 	github.com/bbva/qed v0.0.0
+	github.com/hashicorp/raft v1.1.1
+	google.golang.org/grpc v1.23.1
 	pgregory.net/rapid v1.3.0
 )
 
@@ -23,7 +25,6 @@ require (
 	github.com/hashicorp/go-sockaddr v1.0.0 // indirect
 	github.com/hashicorp/golang-lru v0.5.0 // indirect
 	github.com/hashicorp/memberlist v0.1.5 // indirect
-	github.com/hashicorp/raft v1.1.1 // indirect
 	github.com/matttproud/golang_protobuf_extensions v1.0.1 // indirect
 	github.com/miekg/dns v1.0.14 // indirect
 	github.com/pkg/errors v0.8.1 // indirect
@@ -40,7 +41,6 @@ require (
 	golang.org/x/sys v0.0.0-20190924154521-2837fb4f24fe // indirect
 	golang.org/x/text v0.3.2 // indirect
 	google.golang.org/genproto v0.0.0-20190916214212-f660b8655731 // indirect
-	google.golang.org/grpc v1.23.1 // indirect
 	gopkg.in/yaml.v2 v2.2.2 // indirect
 )
 
